@@ -697,12 +697,17 @@ class Gen:
                     if k:
                         self.punct(',', 'opt')
                     self.colref(self.g())
-                    if rng.random() < 0.5:
+                    x = rng.random()
+                    if x < 0.5:
                         o = rng.choice(['ASC', 'DESC'])
                         if cfg.order_nulls and rng.random() < 0.3:
                             o += ' NULLS ' + rng.choice(['FIRST', 'LAST'])
                         self.emit('kw', o, 'req', o.split() if ' ' in o
                                   else None)
+                    elif x < 0.6 and cfg.order_nulls:
+                        # NULLS FIRST/LAST without ASC/DESC: a rule of its own
+                        o = 'NULLS ' + rng.choice(['FIRST', 'LAST'])
+                        self.emit('kw', o, 'req', o.split())
                 self.s.features.add('orderby')
             if cfg.limit and rng.random() < 0.15:
                 self.kw('LIMIT')
